@@ -1,27 +1,41 @@
-"""formula_engine -> Lean: the shunting-yard precedence table, the tokenizer's character classes and a
-*translation of the body of every arithmetic step's `apply`* (`_formula_steps.py`) into the float
-primitives of `Frequenz/Model/FormulaSteps.lean`.
+"""formula_engine -> Lean: the shunting-yard precedence table, the tokenizer's character classes, a *translation of
+every arithmetic step's `apply`* (`_formula_steps.py`) into the float primitives of `Frequenz/Model/FormulaSteps.lean`
+and the final test of `FormulaEvaluator.apply`.
 
-What is checked while extracting (anything unexpected raises, which sends C05/C13 to the failing-input search):
-  * `_operator_precedence` is a dict literal {str: int} over exactly the ten known operator strings;
-  * each step class's `__repr__` returns the literal the table is indexed with (`repr(prev_step)`);
-  * `FormulaBuilder.push_oper` contains a dispatch (if/elif chain or `match`, any order) operator literal ->
-    self._build_stack.append(<Class>()) that maps every operator string to the class with that repr (")" pushes nothing);
-  * each arithmetic `apply` has the shape  pop [pop]; <assignments / if-else>; append(expr)  and uses only
-    + - * / unary-, max/min, math.isnan, math.nan / float("nan"), comparisons, and/or/not, numeric literals.
+Code is found by ROLE / DATAFLOW, not by statement position or local names, and the generated text is a CANONICAL form
+(a behaviour-preserving refactor of the source gives byte-identical Lean; a behaviour-changing edit gives a different
+term, or raises).  Two small interpreters over the `ast` do the work:
 
-  * `FormulaEvaluator.apply`: after the last `<x> = <stack>.pop()` the sample's value is either create(<x>) or None;
-    the decision (isnan / isinf / isfinite, and/or/not, if/else in either polarity, early return, local, conditional
-    expression — recovered by symbolic execution) becomes `Extracted.Formula.resultIsNone : FloatClass -> Bool`.
+  * `Sx` — symbolic execution (continuation-passing, path by path) of loop-free float code.  Used for
+      - each arithmetic step: `apply` (looked up through the base classes of the module) is run on a symbolic stack;
+        private helpers (methods of the class / its bases, module-level functions, lambdas, `operator.*`) are inlined;
+        guard clauses / early returns / conditional expressions / either polarity of a test / and-or-not / locals /
+        tuple assignments all end up as ONE decision tree over atomic tests (`isnan x`, `x == y`, `x < y`, `x <= y`)
+        whose leaves are the pushed value; `/` is kept as an effect (`let t <- PyF.div a b`) at the place of the path
+        where Python evaluates it (a zero divisor raises there).  On every path the step must pop exactly its arity and
+        push exactly one value.  Operands are named by position (`val1` = pushed first).
+      - `FormulaEvaluator.apply`: from the last `<x> = <stack>.pop()` on, the returned `Sample`'s value is either
+        `<create>(x)` or None; the decision over `isnan / isinf / isfinite (x)`, tabulated for the three classes
+        nan | inf | finite, is `resultIsNone`.
+  * `Pe` — partial evaluation with concrete values and `Unknown`, forking on unknown tests.  Used for
+      - `FormulaBuilder.push_oper`: run once per operator string; whatever the dispatch syntax (if/elif in any order,
+        `match`, dict of classes, helper method, walrus, early return), on EVERY path exactly the step class with that
+        `repr` must be appended to `self._build_stack` (")" pushes nothing).  (The pop loop is modelled by hand as
+        `Shunting.popLoop` and tied by the correspondence check.)
+      - `Tokenizer.__next__`: the body of its character loop is run on every character literal it mentions plus a
+        fresh one: `continue` = whitespace, `return Token(TokenType.OPER, char)` = operator character,
+        `return Token(TokenType.COMPONENT_METRIC, ...)` = metric marker, `raise ValueError` = anything else.
 
-The translated bodies are `Extracted.Formula.bin<Class> : V -> V -> M V` (first argument = the value pushed
-first = `val1`) and `Extracted.Formula.un<Class> : V -> M V`.
+Also checked: `_operator_precedence` is a dict literal {str: int} over exactly the ten operator strings; each step class's
+`__repr__` returns the literal the table is indexed with (`repr(prev_step)`).
+
+Anything the interpreters cannot establish raises `Unsupported`, which sends C05/C13 to the failing-input search.
 """
 from __future__ import annotations
 
 import ast
 import pathlib
-import re
+from fractions import Fraction
 
 NAME = "Formula"
 SOURCES = [
@@ -44,18 +58,12 @@ class Unsupported(Exception):
     pass
 
 
+# ---------------------------------------------------------------- module / class lookup
 def _find(tree: ast.AST, kind, name: str):
     for n in ast.walk(tree):
         if isinstance(n, kind) and getattr(n, "name", None) == name:
             return n
     raise Unsupported(f"{kind.__name__} {name} not found")
-
-
-def _method(cls: ast.ClassDef, name: str) -> ast.FunctionDef:
-    for n in cls.body:
-        if isinstance(n, ast.FunctionDef) and n.name == name:
-            return n
-    raise Unsupported(f"{cls.name}.{name} not found")
 
 
 def _strip_doc(body: list[ast.stmt]) -> list[ast.stmt]:
@@ -64,399 +72,1243 @@ def _strip_doc(body: list[ast.stmt]) -> list[ast.stmt]:
     return body
 
 
-# ---------------------------------------------------------------- precedence table, repr, push_oper
-def precedence(engine_src: str) -> dict[str, int]:
-    tree = ast.parse(engine_src)
-    for n in tree.body:
-        if isinstance(n, ast.Assign) and len(n.targets) == 1 and isinstance(n.targets[0], ast.Name) \
-                and n.targets[0].id == "_operator_precedence":
-            if not isinstance(n.value, ast.Dict):
-                raise Unsupported("_operator_precedence is not a dict literal")
-            tab = {}
-            for k, v in zip(n.value.keys, n.value.values):
-                if not (isinstance(k, ast.Constant) and isinstance(k.value, str)):
-                    raise Unsupported("non-literal key in _operator_precedence")
-                if not (isinstance(v, ast.Constant) and isinstance(v.value, int) and not isinstance(v.value, bool) and v.value >= 0):
-                    raise Unsupported("non-literal / negative value in _operator_precedence")
-                tab[k.value] = v.value
-            if set(tab) != set(OPS):
-                raise Unsupported(f"_operator_precedence keys changed: {sorted(tab)}")
-            return tab
-    raise Unsupported("_operator_precedence not found")
+_FUNC = (ast.FunctionDef, ast.AsyncFunctionDef)
 
 
-def check_reprs(steps_tree: ast.AST) -> None:
-    for s, cname in STEP_CLASS.items():
-        fn = _method(_find(steps_tree, ast.ClassDef, cname), "__repr__")
-        body = _strip_doc(fn.body)
-        if not (len(body) == 1 and isinstance(body[0], ast.Return) and isinstance(body[0].value, ast.Constant)
-                and body[0].value.value == s):
-            raise Unsupported(f"{cname}.__repr__ does not return {s!r}")
+class Module:
+    """Name resolution inside one source file: classes, single-inheritance method lookup, module-level functions,
+    module-/class-level constant assignments, `import` aliases."""
 
-
-def _dispatch_pairs(stmt: ast.stmt, param: str) -> dict[str, str] | None:
-    """oper literal -> source of the single statement executed for it, for an if/elif chain `param == "<s>"` or a
-    `match param: case "<s>":` (cases in any order); None when `stmt` is not such a dispatch."""
-    pairs: dict[str, str] = {}
-    if isinstance(stmt, ast.Match):
-        if not (isinstance(stmt.subject, ast.Name) and stmt.subject.id == param):
-            return None
-        for case in stmt.cases:
-            pats = case.pattern.patterns if isinstance(case.pattern, ast.MatchOr) else [case.pattern]
-            if case.guard is not None or len(case.body) != 1:
-                return None
-            for pat in pats:
-                if not (isinstance(pat, ast.MatchValue) and isinstance(pat.value, ast.Constant)):
-                    return None
-                pairs[pat.value.value] = ast.unparse(case.body[0])
-        return pairs
-    node: ast.stmt | None = stmt
-    while node is not None:
-        if not isinstance(node, ast.If):
-            return None
-        t = node.test
-        lits: list = []
-        if isinstance(t, ast.Compare) and isinstance(t.left, ast.Name) and t.left.id == param and len(t.ops) == 1:
-            c = t.comparators[0]
-            if isinstance(t.ops[0], ast.Eq) and isinstance(c, ast.Constant):
-                lits = [c.value]
-            elif isinstance(t.ops[0], ast.In) and isinstance(c, (ast.Tuple, ast.List, ast.Set)) \
-                    and all(isinstance(e, ast.Constant) for e in c.elts):
-                lits = [e.value for e in c.elts]
-        if not lits or len(node.body) != 1:
-            return None
-        for lit in lits:
-            pairs[lit] = ast.unparse(node.body[0])
-        if len(node.orelse) == 0:
-            node = None
-        elif len(node.orelse) == 1:
-            node = node.orelse[0]
-        else:
-            return None
-    return pairs
-
-
-def check_push_oper(engine_tree: ast.AST) -> None:
-    """`push_oper` = (pop loop, modelled by hand as `Shunting.popLoop` and tied by the correspondence check) followed
-    by the dispatch operator string -> step class.  The dispatch is located by its role (the statement that tests the
-    operator parameter against literals and pushes step objects), whatever its order or syntax (if/elif, match)."""
-    fn = _method(_find(engine_tree, ast.ClassDef, "FormulaBuilder"), "push_oper")
-    if len(fn.args.args) != 2:
-        raise Unsupported("push_oper signature")
-    param = fn.args.args[1].arg
-    found = None
-    for st in _strip_doc(fn.body):
-        pairs = _dispatch_pairs(st, param)
-        if pairs and any(re.fullmatch(r"self\._build_stack\.append\(\w+\(\)\)", v) for v in pairs.values()):
-            if found is not None:
-                raise Unsupported("push_oper: two dispatch statements")
-            found = pairs
-    if found is None:
-        raise Unsupported("push_oper: no dispatch `operator literal -> self._build_stack.append(<Step>())` found")
-    for lit, src in found.items():
-        if src != f"self._build_stack.append({STEP_CLASS.get(lit, '?')}())":
-            raise Unsupported(f"push_oper: operator {lit!r} does not push {STEP_CLASS.get(lit)} ({src})")
-    if set(found) != set(STEP_CLASS):
-        raise Unsupported(f"push_oper: dispatch covers {sorted(found)}")
-
-
-# ---------------------------------------------------------------- step bodies
-_CMP = {ast.Eq: "PyF.eq", ast.NotEq: "PyF.ne", ast.Lt: "PyF.lt", ast.LtE: "PyF.le", ast.Gt: "PyF.gt", ast.GtE: "PyF.ge"}
-
-
-class Body:
-    """Translates one `apply` body into the lines of a Lean `do` block of type `M V`."""
-
-    def __init__(self) -> None:
-        self.tmp = 0
-
-    def fresh(self) -> str:
-        self.tmp += 1
-        return f"t{self.tmp}"
-
-    # expressions: returns (binding lines, pure Lean term of type V)
-    def expr(self, n: ast.expr, ind: str) -> tuple[list[str], str]:
-        if isinstance(n, ast.Name):
-            return [], n.id
-        if isinstance(n, ast.Constant) and isinstance(n.value, (int, float)) and not isinstance(n.value, bool):
-            v = n.value
-            if v != v:
-                return [], "PyF.nan"
-            if v in (float("inf"), float("-inf")):
-                raise Unsupported("infinite literal")
-            from fractions import Fraction
-            fr = Fraction(v)
-            q = f"({fr.numerator} : Rat)" if fr.denominator == 1 else f"(({fr.numerator} : Rat) / {fr.denominator})"
-            return [], f"(PyF.lit {q})"
-        if isinstance(n, ast.Attribute) and ast.unparse(n) == "math.nan":
-            return [], "PyF.nan"
-        if isinstance(n, ast.Call) and ast.unparse(n) in ("float('nan')", 'float("nan")', "float('NaN')"):
-            return [], "PyF.nan"
-        if isinstance(n, ast.UnaryOp) and isinstance(n.op, ast.USub):
-            ls, t = self.expr(n.operand, ind)
-            return ls, f"(PyF.neg {t})"
-        if isinstance(n, ast.BinOp):
-            l1, a = self.expr(n.left, ind)
-            l2, b = self.expr(n.right, ind)
-            if isinstance(n.op, ast.Add):
-                return l1 + l2, f"(PyF.add {a} {b})"
-            if isinstance(n.op, ast.Sub):
-                return l1 + l2, f"(PyF.sub {a} {b})"
-            if isinstance(n.op, ast.Mult):
-                return l1 + l2, f"(PyF.mul {a} {b})"
-            if isinstance(n.op, ast.Div):
-                t = self.fresh()
-                return l1 + l2 + [f"{ind}let {t} ← PyF.div {a} {b}"], t
-            raise Unsupported(f"operator {type(n.op).__name__}")
-        if isinstance(n, ast.Call) and isinstance(n.func, ast.Name) and n.func.id in ("max", "min") \
-                and len(n.args) == 2 and not n.keywords:
-            l1, a = self.expr(n.args[0], ind)
-            l2, b = self.expr(n.args[1], ind)
-            return l1 + l2, f"(PyF.{n.func.id} {a} {b})"
-        if isinstance(n, ast.IfExp):
-            c = self.cond(n.test)
-            t = self.fresh()
-            la, a = self.expr(n.body, ind + "    ")
-            lb, b = self.expr(n.orelse, ind + "    ")
-            lines = [f"{ind}let {t} ← (if {c} then (do"] + la + [f"{ind}    pure {a})", f"{ind}  else (do"] + lb + \
-                    [f"{ind}    pure {b}))"]
-            return lines, t
-        raise Unsupported(f"expression {ast.unparse(n)!r}")
-
-    # conditions: pure Bool terms (no division inside a test)
-    def cond(self, n: ast.expr) -> str:
-        if isinstance(n, ast.BoolOp):
-            op = " || " if isinstance(n.op, ast.Or) else " && "
-            return "(" + op.join(self.cond(v) for v in n.values) + ")"
-        if isinstance(n, ast.UnaryOp) and isinstance(n.op, ast.Not):
-            return f"(!{self.cond(n.operand)})"
-        if isinstance(n, ast.Call) and ast.unparse(n.func) in ("math.isnan", "isnan") and len(n.args) == 1:
-            return f"(PyF.isnan {self.pure(n.args[0])})"
-        if isinstance(n, ast.Compare) and len(n.ops) == 1 and type(n.ops[0]) in _CMP:
-            return f"({_CMP[type(n.ops[0])]} {self.pure(n.left)} {self.pure(n.comparators[0])})"
-        raise Unsupported(f"condition {ast.unparse(n)!r}")
-
-    def pure(self, n: ast.expr) -> str:
-        ls, t = self.expr(n, "")
-        if ls:
-            raise Unsupported(f"effectful expression inside a test: {ast.unparse(n)!r}")
-        return t
+    def __init__(self, src: str) -> None:
+        self.tree = ast.parse(src)
+        self.classes = {n.name: n for n in self.tree.body if isinstance(n, ast.ClassDef)}
+        self.functions = {n.name: n for n in self.tree.body if isinstance(n, _FUNC)}
+        self.consts: dict[str, ast.expr] = {}
+        for n in self.tree.body:
+            self._const(n, self.consts)
+        # local name -> dotted origin ("isnan" -> "math.isnan", "m" -> "math")
+        self.imports: dict[str, str] = {}
+        for n in self.tree.body:
+            if isinstance(n, ast.Import):
+                for a in n.names:
+                    self.imports[a.asname or a.name.split(".")[0]] = a.name if a.asname else a.name.split(".")[0]
+            elif isinstance(n, ast.ImportFrom):
+                for a in n.names:
+                    self.imports[a.asname or a.name] = f"{'.' * n.level}{n.module or ''}.{a.name}"
 
     @staticmethod
-    def assigned(stmts: list[ast.stmt]) -> list[str]:
-        out: list[str] = []
-        for s in stmts:
-            if isinstance(s, ast.Assign) and len(s.targets) == 1 and isinstance(s.targets[0], ast.Name):
-                if s.targets[0].id not in out:
-                    out.append(s.targets[0].id)
-            elif isinstance(s, ast.If):
-                for v in Body.assigned(s.body) + Body.assigned(s.orelse):
-                    if v not in out:
-                        out.append(v)
-            else:
-                raise Unsupported(f"statement {ast.unparse(s)!r}")
+    def _const(n: ast.stmt, out: dict[str, ast.expr]) -> None:
+        if isinstance(n, ast.Assign) and len(n.targets) == 1 and isinstance(n.targets[0], ast.Name):
+            out[n.targets[0].id] = n.value
+        elif isinstance(n, ast.AnnAssign) and isinstance(n.target, ast.Name) and n.value is not None:
+            out[n.target.id] = n.value
+
+    def cls(self, name: str) -> ast.ClassDef:
+        if name not in self.classes:
+            raise Unsupported(f"class {name} not found")
+        return self.classes[name]
+
+    def mro(self, cname: str) -> list[ast.ClassDef]:
+        out, seen = [], set()
+        todo = [cname]
+        while todo:
+            c = todo.pop(0)
+            if c in seen or c not in self.classes:
+                continue
+            seen.add(c)
+            out.append(self.classes[c])
+            for b in self.classes[c].bases:
+                b = b.value if isinstance(b, ast.Subscript) else b
+                if isinstance(b, ast.Name):
+                    todo.append(b.id)
         return out
 
-    def stmts(self, stmts: list[ast.stmt], defined: set[str], ind: str) -> list[str]:
-        lines: list[str] = []
-        for s in stmts:
-            if isinstance(s, ast.Assign):
-                if not (len(s.targets) == 1 and isinstance(s.targets[0], ast.Name)):
-                    raise Unsupported(f"assignment {ast.unparse(s)!r}")
-                ls, t = self.expr(s.value, ind)
-                lines += ls + [f"{ind}let {s.targets[0].id} := {t}"]
-                defined.add(s.targets[0].id)
-            elif isinstance(s, ast.If):
-                c = self.cond(s.test)
-                vs = self.assigned(s.body + s.orelse)
-                d1, d2 = set(defined), set(defined)
-                b1 = self.stmts(s.body, d1, ind + "    ")
-                b2 = self.stmts(s.orelse, d2, ind + "    ")
-                for v in vs:
-                    if v not in d1 or v not in d2:
-                        raise Unsupported(f"`{v}` is not assigned on every path")
-                tup = vs[0] if len(vs) == 1 else "(" + ", ".join(vs) + ")"
-                lines += [f"{ind}let {tup} ← (if {c} then (do"] + b1 + [f"{ind}    pure {tup})", f"{ind}  else (do"] + b2 + \
-                         [f"{ind}    pure {tup}))"]
-                defined |= set(vs)
-            else:
-                raise Unsupported(f"statement {ast.unparse(s)!r}")
-        return lines
-
-
-def translate_step(steps_tree: ast.AST, cname: str, arity: int) -> str:
-    fn = _method(_find(steps_tree, ast.ClassDef, cname), "apply")
-    args = [a.arg for a in fn.args.args]
-    if len(args) != 2 or args[0] != "self":
-        raise Unsupported(f"{cname}.apply signature")
-    stack = args[1]
-    body = _strip_doc(fn.body)
-    pops: list[str] = []
-    i = 0
-    while i < len(body) and isinstance(body[i], ast.Assign) and ast.unparse(body[i].value) == f"{stack}.pop()":
-        tgt = body[i].targets
-        if len(tgt) != 1 or not isinstance(tgt[0], ast.Name):
-            raise Unsupported(f"{cname}.apply: pop target")
-        pops.append(tgt[0].id)
-        i += 1
-    if len(pops) != arity or len(set(pops)) != arity:
-        raise Unsupported(f"{cname}.apply pops {len(pops)} values, expected {arity}")
-    last = body[-1]
-    if not (isinstance(last, ast.Expr) and isinstance(last.value, ast.Call)
-            and ast.unparse(last.value.func) == f"{stack}.append" and len(last.value.args) == 1):
-        raise Unsupported(f"{cname}.apply does not end with {stack}.append(...)")
-    middle = body[i:-1]
-    for n in middle:
-        for sub in ast.walk(n):
-            if isinstance(sub, ast.Name) and sub.id == stack:
-                raise Unsupported(f"{cname}.apply touches the stack between pop and append")
-    tr = Body()
-    defined = set(pops)
-    lines = tr.stmts(middle, defined, "  ")
-    for sub in ast.walk(last.value.args[0]):
-        if isinstance(sub, ast.Name) and sub.id not in defined and sub.id not in ("max", "min", "math", "float"):
-            raise Unsupported(f"{cname}.apply: `{sub.id}` undefined")
-    ls, t = tr.expr(last.value.args[0], "  ")
-    lines += ls + [f"  pure {t}"]
-    # the value popped first was pushed last: it is the SECOND operand
-    params = list(reversed(pops))
-    kind = "bin" if arity == 2 else "un"
-    head = f"def Extracted.Formula.{kind}{cname} " + " ".join(f"({p} : V)" for p in params) + " : M V := do"
-    return head + "\n" + "\n".join(lines) + "\n"
-
-
-# ---------------------------------------------------------------- tokenizer character classes
-def tokenizer_chars(tok_src: str) -> tuple[list[str], list[str], str]:
-    """The character classes of `Tokenizer.__next__`, by role: the test whose branch skips the character (`continue`)
-    = whitespace, the one that returns an OPER token = operators, the one that returns a COMPONENT_METRIC token = marker."""
-    tree = ast.parse(tok_src)
-    fn = _method(_find(tree, ast.ClassDef, "Tokenizer"), "__next__")
-    roles: dict[str, list[str]] = {}
-
-    def chars_of(test: ast.expr) -> list[str] | None:
-        if isinstance(test, ast.Compare) and isinstance(test.left, ast.Name) and len(test.ops) == 1:
-            c = test.comparators[0]
-            if isinstance(test.ops[0], ast.In) and isinstance(c, (ast.Tuple, ast.List, ast.Set)) \
-                    and all(isinstance(e, ast.Constant) for e in c.elts):
-                return [e.value for e in c.elts]
-            if isinstance(test.ops[0], ast.In) and isinstance(c, ast.Constant) and isinstance(c.value, str):
-                return list(c.value)
-            if isinstance(test.ops[0], ast.Eq) and isinstance(c, ast.Constant):
-                return [c.value]
+    def method(self, cname: str, name: str):
+        """(function, defining class) of `name` for instances of `cname`; abstract stubs (docstring only) are skipped."""
+        for c in self.mro(cname):
+            for n in c.body:
+                if isinstance(n, _FUNC) and n.name == name and _strip_doc(n.body):
+                    return n, c
         return None
 
-    for n in ast.walk(fn):
-        if not isinstance(n, ast.If):
-            continue
-        chars = chars_of(n.test)
-        if chars is None:
-            continue
-        body = ast.unparse(ast.Module(body=n.body, type_ignores=[]))
-        if len(n.body) == 1 and isinstance(n.body[0], ast.Continue):
-            role = "ws"
-        elif "TokenType.OPER" in body and any(isinstance(x, ast.Return) for x in n.body):
-            role = "oper"
-        elif "TokenType.COMPONENT_METRIC" in body and any(isinstance(x, ast.Return) for x in n.body):
-            role = "metric"
-        else:
-            raise Unsupported(f"Tokenizer.__next__: character test with an unknown role: {ast.unparse(n.test)}")
-        if role in roles:
-            raise Unsupported(f"Tokenizer.__next__: two tests with role {role}")
-        roles[role] = chars
-    if set(roles) != {"ws", "oper", "metric"} or len(roles["metric"]) != 1:
-        raise Unsupported(f"Tokenizer.__next__: character classes found: {sorted(roles)}")
-    ws, ops, hash_ = roles["ws"], roles["oper"], roles["metric"][0]
-    for ch in ws + ops + [hash_]:
-        if not (isinstance(ch, str) and len(ch) == 1):
-            raise Unsupported("Tokenizer.__next__: non single-character literal")
-    if set(ops) != {"+", "-", "*", "/", "(", ")"}:
-        raise Unsupported(f"Tokenizer operator characters changed: {ops}")
-    return ws, sorted(ops, key="+-*/()".index), hash_
+    def class_const(self, cname: str, name: str) -> ast.expr | None:
+        for c in self.mro(cname):
+            d: dict[str, ast.expr] = {}
+            for n in c.body:
+                self._const(n, d)
+            if name in d:
+                return d[name]
+        return None
+
+    def dotted(self, e: ast.expr) -> str | None:
+        """`math.isnan` / `isnan` (imported from math) / `m.isnan` (import math as m) -> "math.isnan"."""
+        parts: list[str] = []
+        while isinstance(e, ast.Attribute):
+            parts.append(e.attr)
+            e = e.value
+        if not isinstance(e, ast.Name):
+            return None
+        head = self.imports.get(e.id, e.id)
+        return ".".join([head] + parts[::-1])
+
+
+def _is_static(fn) -> bool:
+    return any(isinstance(d, ast.Name) and d.id == "staticmethod" for d in fn.decorator_list)
+
+
+def _is_classmethod(fn) -> bool:
+    return any(isinstance(d, ast.Name) and d.id == "classmethod" for d in fn.decorator_list)
+
+
+def _bind_params(fn, args: list, kwargs: dict, what: str) -> dict:
+    a = fn.args
+    if a.vararg or a.kwarg or a.kwonlyargs:
+        raise Unsupported(f"{what}: signature with * / ** / keyword-only parameters")
+    names = [p.arg for p in a.posonlyargs + a.args]
+    if len(args) > len(names):
+        raise Unsupported(f"{what}: too many arguments")
+    env = dict(zip(names, args))
+    for k, v in kwargs.items():
+        if k not in names or k in env:
+            raise Unsupported(f"{what}: keyword argument {k}")
+        env[k] = v
+    missing = [n for n in names if n not in env]
+    defaults = dict(zip(names[len(names) - len(a.defaults):], a.defaults))
+    for n in missing:
+        if n not in defaults:
+            raise Unsupported(f"{what}: missing argument {n}")
+        env[n] = ("default", defaults[n])
+    return env
+
+
+# ================================================================ Sx: symbolic execution of loop-free float code
+# values:  ("f", lean term) float | ("b", bool) | ("none",) | ("stack",) | ("tuple", [values]) | ("self",)
+#          ("fn", node, closure env, self class | None) | ("prim", dotted name) | ("sample", value) | ("created",)
+# nodes:   ("ret", leaf) | ("let", t, a, b, node) | ("if", atom, node, node)
+class St:
+    """Immutable-by-convention path state."""
+    __slots__ = ("env", "pushed", "npop", "tmp", "facts", "depth")
+
+    def __init__(self, env, pushed=(), npop=0, tmp=0, facts=(), depth=0):
+        self.env, self.pushed, self.npop, self.tmp, self.facts, self.depth = env, pushed, npop, tmp, facts, depth
+
+    def but(self, **kw) -> "St":
+        s = St(self.env, self.pushed, self.npop, self.tmp, self.facts, self.depth)
+        for k, v in kw.items():
+            setattr(s, k, v)
+        return s
+
+    def bind(self, name: str, v) -> "St":
+        env = dict(self.env)
+        env[name] = v
+        return self.but(env=env)
+
+
+_OPERATOR = {"operator.add": ast.Add, "operator.sub": ast.Sub, "operator.mul": ast.Mult, "operator.truediv": ast.Div}
+
+
+class Sx:
+    PRIMS = {"math.isnan": "PyF.isnan"}
+    MAX_DEPTH = 12
+
+    def __init__(self, mod: Module, cname: str | None, what: str, operand_names: list[str] | None = None) -> None:
+        self.mod, self.cname, self.what = mod, cname, what
+        self.operand_names = operand_names or []      # by pop order
+
+    # ------------------------------------------------------------ helpers
+    def bad(self, msg: str):
+        raise Unsupported(f"{self.what}: {msg}")
+
+    @staticmethod
+    def lit(v) -> str:
+        if v != v:
+            return "PyF.nan"
+        if v in (float("inf"), float("-inf")):
+            raise Unsupported("infinite literal")
+        fr = Fraction(v)
+        q = f"({fr.numerator} : Rat)" if fr.denominator == 1 else f"(({fr.numerator} : Rat) / {fr.denominator})"
+        return f"(PyF.lit {q})"
+
+    def flt(self, v, src: ast.AST) -> str:
+        if v[0] != "f":
+            self.bad(f"a float is needed in {ast.unparse(src)!r}")
+        return v[1]
+
+    def mk_if(self, atom: str, st: St, kt, kf):
+        for a, val in st.facts:
+            if a == atom:
+                return kt(st) if val else kf(st)
+        a_ = kt(st.but(facts=st.facts + ((atom, True),)))
+        b_ = kf(st.but(facts=st.facts + ((atom, False),)))
+        return a_ if a_ == b_ else ("if", atom, a_, b_)
+
+    # ------------------------------------------------------------ expressions
+    def eval(self, e: ast.expr, st: St, k):
+        """k(value, state) -> node"""
+        if isinstance(e, ast.Constant):
+            v = e.value
+            if v is None:
+                return k(("none",), st)
+            if isinstance(v, bool):
+                return k(("b", v), st)
+            if isinstance(v, (int, float)):
+                return k(("f", self.lit(v)), st)
+            self.bad(f"constant {v!r}")
+        if isinstance(e, ast.Name):
+            if e.id in st.env:
+                v = st.env[e.id]
+                if v[0] == "default":
+                    return self.eval(v[1], st.but(env={}), lambda w, _s: k(w, st))
+                return k(v, st)
+            if e.id in self.mod.functions:
+                return k(("fn", self.mod.functions[e.id], {}, None), st)
+            if e.id in self.mod.consts and e.id not in self.mod.imports:
+                return self.eval(self.mod.consts[e.id], st.but(env={}), lambda w, _s: k(w, st))
+            return k(self.global_name(self.mod.imports.get(e.id, e.id), e), st)
+        if isinstance(e, ast.Attribute):
+            if isinstance(e.value, ast.Name) and st.env.get(e.value.id, (None,))[0] == "self" or \
+                    isinstance(e.value, ast.Name) and e.value.id == self.cname and e.value.id not in st.env:
+                return self.self_attr(e.attr, st, k, e)
+            d = self.mod.dotted(e)
+            if d is not None and isinstance(e.value, ast.Name) and e.value.id not in st.env:
+                return k(self.global_name(d, e), st)
+            self.bad(f"attribute {ast.unparse(e)!r}")
+        if isinstance(e, ast.UnaryOp):
+            if isinstance(e.op, ast.Not):
+                return self.cond(e, st, lambda s: k(("b", True), s), lambda s: k(("b", False), s))
+            if isinstance(e.op, ast.USub):
+                return self.eval(e.operand, st, lambda v, s: k(("f", f"(PyF.neg {self.flt(v, e)})"), s))
+            if isinstance(e.op, ast.UAdd):
+                return self.eval(e.operand, st, lambda v, s: k(("f", self.flt(v, e)), s))
+            self.bad(f"operator {type(e.op).__name__}")
+        if isinstance(e, ast.BinOp):
+            return self.eval(e.left, st, lambda a, s1: self.eval(e.right, s1, lambda b, s2: self.binop(type(e.op), a, b, s2, k, e)))
+        if isinstance(e, (ast.BoolOp, ast.Compare)):
+            return self.cond(e, st, lambda s: k(("b", True), s), lambda s: k(("b", False), s))
+        if isinstance(e, ast.IfExp):
+            return self.cond(e.test, st, lambda s: self.eval(e.body, s, k), lambda s: self.eval(e.orelse, s, k))
+        if isinstance(e, ast.Tuple) or isinstance(e, ast.List):
+            return self.eval_list(list(e.elts), st, lambda vs, s: k(("tuple", vs), s))
+        if isinstance(e, ast.Lambda):
+            return k(("fn", e, dict(st.env), None), st)
+        if isinstance(e, ast.NamedExpr) and isinstance(e.target, ast.Name):
+            return self.eval(e.value, st, lambda v, s: k(v, s.bind(e.target.id, v)))
+        if isinstance(e, ast.Call):
+            return self.call(e, st, k)
+        self.bad(f"expression {ast.unparse(e)!r}")
+
+    def eval_list(self, es: list[ast.expr], st: St, k, acc=()):
+        if not es:
+            return k(list(acc), st)
+        if isinstance(es[0], ast.Starred):
+            self.bad("starred expression")
+        return self.eval(es[0], st, lambda v, s: self.eval_list(es[1:], s, k, acc + (v,)))
+
+    def global_name(self, dotted: str, src: ast.AST):
+        if dotted in ("math.nan",):
+            return ("f", "PyF.nan")
+        if dotted in ("math.inf",):
+            raise Unsupported("infinite literal")
+        if dotted in ("max", "min", "float", "math.isnan", "math.isinf", "math.isfinite", "operator.neg") or dotted in _OPERATOR:
+            return ("prim", dotted)
+        self.bad(f"name {ast.unparse(src)!r}")
+
+    def self_attr(self, attr: str, st: St, k, src: ast.AST):
+        if self.cname is None:
+            self.bad(f"attribute {ast.unparse(src)!r}")
+        m = self.mod.method(self.cname, attr)
+        if m is not None:
+            return k(("fn", m[0], {}, self.cname), st)
+        c = self.mod.class_const(self.cname, attr)
+        if c is not None:
+            return self.eval(c, st.but(env={}), lambda w, _s: k(w, st))
+        return self.unknown_self_attr(attr, st, k, src)
+
+    def unknown_self_attr(self, attr: str, st: St, k, src: ast.AST):
+        self.bad(f"attribute {ast.unparse(src)!r}")
+
+    def binop(self, op, a, b, st: St, k, src: ast.AST):
+        x, y = self.flt(a, src), self.flt(b, src)
+        if op in (ast.Add, ast.Mult):      # commutative (IEEE and model): operands in a fixed order
+            x, y = sorted((x, y))
+        if op is ast.Add:
+            return k(("f", f"(PyF.add {x} {y})"), st)
+        if op is ast.Sub:
+            return k(("f", f"(PyF.sub {x} {y})"), st)
+        if op is ast.Mult:
+            return k(("f", f"(PyF.mul {x} {y})"), st)
+        if op is ast.Div:
+            t = f"t{st.tmp + 1}"
+            return ("let", t, x, y, k(("f", t), st.but(tmp=st.tmp + 1)))
+        self.bad(f"operator {op.__name__}")
+
+    # ------------------------------------------------------------ calls
+    def call(self, e: ast.Call, st: St, k):
+        f = e.func
+        # stack methods: <stack>.pop() / <stack>.append(v)
+        if isinstance(f, ast.Attribute) and isinstance(f.value, ast.Name) and st.env.get(f.value.id, (None,))[0] == "stack":
+            if f.attr == "pop" and not e.keywords and (not e.args or ast.unparse(e.args[0]) == "-1"):
+                if st.pushed:
+                    return k(("f", st.pushed[-1]), st.but(pushed=st.pushed[:-1]))
+                if st.npop >= len(self.operand_names):
+                    self.bad(f"pops more than {len(self.operand_names)} values")
+                return k(("f", self.operand_names[st.npop]), st.but(npop=st.npop + 1))
+            if f.attr == "append" and len(e.args) == 1 and not e.keywords:
+                return self.eval(e.args[0], st, lambda v, s: k(("none",), s.but(pushed=s.pushed + (self.flt(v, e),))))
+            self.bad(f"stack operation {ast.unparse(e)!r}")
+        if any(kw.arg is None for kw in e.keywords):
+            self.bad("** arguments")
+        if isinstance(f, ast.Name) and f.id == "float" and f.id not in st.env and len(e.args) == 1 and not e.keywords \
+                and isinstance(e.args[0], ast.Constant) and isinstance(e.args[0].value, str):
+            txt = e.args[0].value.strip().lower()
+            if txt in ("nan", "+nan", "-nan"):
+                return k(("f", "PyF.nan"), st)
+            try:
+                return k(("f", self.lit(float(txt))), st)
+            except ValueError:
+                self.bad(f"call {ast.unparse(e)!r}")
+        return self.eval(f, st, lambda fv, s1: self.eval_list(
+            list(e.args) + [kw.value for kw in e.keywords], s1,
+            lambda vs, s2: self.apply(fv, vs[:len(e.args)], dict(zip([kw.arg for kw in e.keywords], vs[len(e.args):])), s2, k, e)))
+
+    def apply(self, fv, args: list, kwargs: dict, st: St, k, src: ast.AST):
+        if fv[0] == "prim":
+            return self.prim(fv[1], args, kwargs, st, k, src)
+        if fv[0] != "fn":
+            self.bad(f"call {ast.unparse(src)!r}")
+        _, fn, closure, owner = fv
+        if st.depth >= self.MAX_DEPTH:
+            self.bad("helper calls nested too deeply (recursion?)")
+        what = f"helper {getattr(fn, 'name', '<lambda>')}"
+        if isinstance(fn, ast.Lambda):
+            env = dict(closure)
+            env.update(_bind_params(fn, args, kwargs, what))
+            return self.eval(fn.body, st.but(env=env, depth=st.depth + 1), lambda v, s: k(v, s.but(env=st.env, depth=st.depth)))
+        if isinstance(fn, ast.AsyncFunctionDef):
+            self.bad(f"{what} is async")
+        if owner is not None and not _is_static(fn):
+            args = [("self",)] + args
+        env = _bind_params(fn, args, kwargs, what)
+        back = lambda v, s: k(v, s.but(env=st.env, depth=st.depth))  # noqa: E731
+        return self.exec(_strip_doc(fn.body), st.but(env=env, depth=st.depth + 1), lambda s: back(("none",), s), back)
+
+    def prim(self, name: str, args: list, kwargs: dict, st: St, k, src: ast.AST):
+        if kwargs:
+            self.bad(f"keyword arguments in {ast.unparse(src)!r}")
+        if name in ("max", "min") and len(args) == 2:
+            return k(("f", f"(PyF.{name} {self.flt(args[0], src)} {self.flt(args[1], src)})"), st)
+        if name == "float" and len(args) == 1 and args[0][0] == "f":
+            return k(args[0], st)
+        if name == "operator.neg" and len(args) == 1:
+            return k(("f", f"(PyF.neg {self.flt(args[0], src)})"), st)
+        if name in _OPERATOR and len(args) == 2:
+            return self.binop(_OPERATOR[name], args[0], args[1], st, k, src)
+        if name in self.PRIMS and len(args) == 1:
+            atom = f"({self.PRIMS[name]} {self.flt(args[0], src)})"
+            return self.mk_if(atom, st, lambda s: k(("b", True), s), lambda s: k(("b", False), s))
+        self.bad(f"call {ast.unparse(src)!r}")
+
+    # ------------------------------------------------------------ conditions
+    def cond(self, e: ast.expr, st: St, kt, kf):
+        """kt(state) / kf(state) -> node"""
+        if isinstance(e, ast.BoolOp):
+            vs = list(e.values)
+            if len(vs) == 1:
+                return self.cond(vs[0], st, kt, kf)
+            rest = ast.BoolOp(op=e.op, values=vs[1:])
+            if isinstance(e.op, ast.And):
+                return self.cond(vs[0], st, lambda s: self.cond(rest, s, kt, kf), kf)
+            return self.cond(vs[0], st, kt, lambda s: self.cond(rest, s, kt, kf))
+        if isinstance(e, ast.UnaryOp) and isinstance(e.op, ast.Not):
+            return self.cond(e.operand, st, kf, kt)
+        if isinstance(e, ast.Compare):
+            if len(e.ops) != 1:
+                first = ast.Compare(left=e.left, ops=e.ops[:1], comparators=e.comparators[:1])
+                if any(not isinstance(c, (ast.Name, ast.Constant)) for c in e.comparators[:-1]):
+                    self.bad(f"chained comparison {ast.unparse(e)!r}")
+                rest = ast.Compare(left=e.comparators[0], ops=e.ops[1:], comparators=e.comparators[1:])
+                return self.cond(first, st, lambda s: self.cond(rest, s, kt, kf), kf)
+            op = type(e.ops[0])
+            return self.eval(e.left, st, lambda a, s1: self.eval(e.comparators[0], s1, lambda b, s2: self.compare(op, a, b, s2, kt, kf, e)))
+        return self.eval(e, st, lambda v, s: self.truth(v, s, kt, kf, e))
+
+    def compare(self, op, a, b, st: St, kt, kf, src: ast.AST):
+        if op in (ast.Is, ast.IsNot):
+            if "none" not in (a[0], b[0]) or not {a[0], b[0]} <= {"none", "f"}:
+                self.bad(f"comparison {ast.unparse(src)!r}")
+            same = a[0] == b[0]
+            return (kt if same == (op is ast.Is) else kf)(st)
+        x, y = self.flt(a, src), self.flt(b, src)
+        if op is ast.Eq:
+            return self.mk_if(f"(PyF.eq {x} {y})", st, kt, kf)
+        if op is ast.NotEq:
+            return self.mk_if(f"(PyF.eq {x} {y})", st, kf, kt)
+        if op is ast.Lt:
+            return self.mk_if(f"(PyF.lt {x} {y})", st, kt, kf)
+        if op is ast.Gt:
+            return self.mk_if(f"(PyF.lt {y} {x})", st, kt, kf)
+        if op is ast.LtE:
+            return self.mk_if(f"(PyF.le {x} {y})", st, kt, kf)
+        if op is ast.GtE:
+            return self.mk_if(f"(PyF.le {y} {x})", st, kt, kf)
+        self.bad(f"comparison {ast.unparse(src)!r}")
+
+    def truth(self, v, st: St, kt, kf, src: ast.AST):
+        if v[0] == "b":
+            return (kt if v[1] else kf)(st)
+        if v[0] == "none":
+            return kf(st)
+        if v[0] == "f":       # a float is falsy exactly when it == 0 (NaN is truthy)
+            return self.mk_if(f"(PyF.eq {v[1]} {self.lit(0)})", st, kf, kt)
+        self.bad(f"truth value of {ast.unparse(src)!r}")
+
+    # ------------------------------------------------------------ statements
+    def exec(self, stmts: list[ast.stmt], st: St, k_next, k_ret):
+        """k_next(state) when the statements fall through, k_ret(value, state) on `return`."""
+        if not stmts:
+            return k_next(st)
+        s, rest = stmts[0], stmts[1:]
+        go = lambda s2: self.exec(rest, s2, k_next, k_ret)  # noqa: E731
+        if isinstance(s, ast.Pass):
+            return go(st)
+        if isinstance(s, ast.Expr):
+            if isinstance(s.value, ast.Constant) and isinstance(s.value.value, str):
+                return go(st)
+            return self.eval(s.value, st, lambda _v, s2: go(s2))
+        if isinstance(s, ast.Assign):
+            if len(s.targets) != 1:
+                self.bad(f"assignment {ast.unparse(s)!r}")
+            return self.eval(s.value, st, lambda v, s2: go(self.assign(s.targets[0], v, s2)))
+        if isinstance(s, ast.AnnAssign):
+            if s.value is None:
+                return go(st)
+            return self.eval(s.value, st, lambda v, s2: go(self.assign(s.target, v, s2)))
+        if isinstance(s, ast.AugAssign):
+            if not isinstance(s.target, ast.Name):
+                self.bad(f"assignment {ast.unparse(s)!r}")
+            load = ast.Name(id=s.target.id, ctx=ast.Load())
+            return self.eval(load, st, lambda a, s1: self.eval(s.value, s1, lambda b, s2: self.binop(
+                type(s.op), a, b, s2, lambda v, s3: go(s3.bind(s.target.id, v)), s)))
+        if isinstance(s, ast.If):
+            return self.cond(s.test, st,
+                             lambda s2: self.exec(s.body, s2, go, k_ret),
+                             lambda s2: self.exec(s.orelse, s2, go, k_ret))
+        if isinstance(s, ast.Return):
+            if s.value is None:
+                return k_ret(("none",), st)
+            return self.eval(s.value, st, k_ret)
+        self.bad(f"statement {ast.unparse(s)!r}")
+
+    def assign(self, tgt: ast.expr, v, st: St) -> St:
+        if isinstance(tgt, ast.Name):
+            return st.bind(tgt.id, v)
+        if isinstance(tgt, (ast.Tuple, ast.List)) and v[0] == "tuple" and len(tgt.elts) == len(v[1]):
+            for t, w in zip(tgt.elts, v[1]):
+                st = self.assign(t, w, st)
+            return st
+        self.bad(f"assignment target {ast.unparse(tgt)!r}")
+
+
+def _atoms(node, bound: frozenset = frozenset()) -> set[str]:
+    """Atoms of the tests in `node` that do not mention a temporary bound inside `node`."""
+    if node[0] == "ret":
+        return set()
+    if node[0] == "let":
+        return _atoms(node[4], bound | {node[1]})
+    out = _atoms(node[2], bound) | _atoms(node[3], bound)
+    if not any(t in node[1].replace("(", " ").replace(")", " ").split() for t in bound):
+        out.add(node[1])
+    return out
+
+
+def _restrict(node, atom: str, val: bool):
+    if node[0] == "ret":
+        return node
+    if node[0] == "let":
+        return ("let", node[1], node[2], node[3], _restrict(node[4], atom, val))
+    if node[1] == atom:
+        return _restrict(node[2] if val else node[3], atom, val)
+    a, b = _restrict(node[2], atom, val), _restrict(node[3], atom, val)
+    return a if a == b else ("if", node[1], a, b)
+
+
+def _subst_nan(node, ident: str):
+    """On a path where `isnan <ident>` holds, <ident> IS NaN (`V = Option Rat`: `isnan x` iff `x = none = PyF.nan`; in
+    Python every NaN behaves alike): `return rhs` and `return math.nan` are the same leaf."""
+    import re
+    pat = re.compile(rf"(?<![\w.]){re.escape(ident)}(?![\w.])")
+    if node[0] == "ret":
+        return ("ret", pat.sub("PyF.nan", node[1]))
+    if node[0] == "let":
+        return ("let", node[1], pat.sub("PyF.nan", node[2]), pat.sub("PyF.nan", node[3]), _subst_nan(node[4], ident))
+    atom = pat.sub("PyF.nan", node[1])
+    if atom == "(PyF.isnan PyF.nan)":
+        return _subst_nan(node[2], ident)
+    a, b = _subst_nan(node[2], ident), _subst_nan(node[3], ident)
+    return a if a == b else ("if", atom, a, b)
+
+
+def canon(node):
+    """Reduced ORDERED decision tree: tests in a fixed (textual) order, equal branches merged.  Tests are pure, so
+    moving them does not move the `let t <- PyF.div ..` effects: for every input the same divisions are executed in the
+    same order as on the path Python takes.  `a or b` / `b or a` / `not (not a and not b)` / guard clauses all meet."""
+    if node[0] == "ret":
+        return node
+    if node[0] == "let":
+        return ("let", node[1], node[2], node[3], canon(node[4]))
+    atom = min(_atoms(node))
+    a, b = _restrict(node, atom, True), _restrict(node, atom, False)
+    if atom.startswith("(PyF.isnan ") and atom[len("(PyF.isnan "):-1].isidentifier():
+        a = _subst_nan(a, atom[len("(PyF.isnan "):-1])
+    a, b = canon(a), canon(b)
+    return a if a == b else ("if", atom, a, b)
+
+
+def _emit_m(node, ind: str) -> list[str]:
+    """A decision tree as the lines of a Lean `do` block of type `M V`."""
+    if node[0] == "ret":
+        return [f"{ind}pure {node[1]}"]
+    if node[0] == "let":
+        return [f"{ind}let {node[1]} ← PyF.div {node[2]} {node[3]}"] + _emit_m(node[4], ind)
+    _, atom, a, b = node
+    la, lb = _emit_m(a, ind + "    "), _emit_m(b, ind + "    ")
+    la[-1] += ")"
+    lb[-1] += ")"
+    return [f"{ind}if {atom} then (do"] + la + [f"{ind}else (do"] + lb
+
+
+def translate_step(mod: Module, cname: str, arity: int) -> str:
+    what = f"{cname}.apply"
+    m = mod.method(cname, "apply")
+    if m is None:
+        raise Unsupported(f"{what} not found")
+    fn = m[0]
+    if isinstance(fn, ast.AsyncFunctionDef) or _is_static(fn) or _is_classmethod(fn):
+        raise Unsupported(f"{what}: not a plain method")
+    # the value popped first was pushed last: it is the SECOND operand
+    params = ["val1", "val2"] if arity == 2 else ["val"]
+    sx = Sx(mod, cname, what, operand_names=list(reversed(params)))
+    env = _bind_params(fn, [("self",), ("stack",)], {}, what)
+
+    def finish(st: St):
+        if st.npop != arity:
+            sx.bad(f"pops {st.npop} values on some path, expected {arity}")
+        if len(st.pushed) != 1:
+            sx.bad(f"pushes {len(st.pushed)} values on some path, expected 1")
+        return ("ret", st.pushed[0])
+
+    tree = sx.exec(_strip_doc(fn.body), St(env), finish, lambda _v, st: finish(st))
+    kind = "bin" if arity == 2 else "un"
+    head = f"def Extracted.Formula.{kind}{cname} " + " ".join(f"({p} : V)" for p in params) + " : M V := do"
+    return head + "\n" + "\n".join(_emit_m(canon(tree), "  ")) + "\n"
 
 
 # ---------------------------------------------------------------- the final test of FormulaEvaluator.apply
+class FinalSx(Sx):
+    """The part of `FormulaEvaluator.apply` after the result was popped: `res` is a float of class finite | nan | inf,
+    only classified (no arithmetic); `Sample(ts, v)` is the answer, `self.<attribute>(res)` the created quantity."""
+    PRIMS = {"math.isnan": "PyF.isnanC", "math.isinf": "PyF.isinfC", "math.isfinite": "PyF.isfiniteC"}
+
+    def global_name(self, dotted: str, src: ast.AST):
+        if dotted in self.PRIMS:
+            return ("prim", dotted)
+        if dotted.split(".")[-1] == "Sample":
+            return ("prim", "Sample")
+        self.bad(f"name {ast.unparse(src)!r}")
+
+    def unknown_self_attr(self, attr: str, st: St, k, src: ast.AST):
+        return k(("prim", "self." + attr), st)      # an instance attribute (the create method)
+
+    def prim(self, name: str, args: list, kwargs: dict, st: St, k, src: ast.AST):
+        if name == "Sample":
+            vs = args + [kwargs[x] for x in ("timestamp", "value") if x in kwargs]
+            if len(vs) != 2 or set(kwargs) - {"timestamp", "value"} or vs[1][0] not in ("none", "created"):
+                self.bad(f"sample {ast.unparse(src)!r}")
+            return k(("sample", vs[1]), st)
+        if name.startswith("self.") and not kwargs and len(args) == 1 and args[0] == ("f", "res"):
+            return k(("created",), st)
+        if name in self.PRIMS and not kwargs and len(args) == 1 and args[0] == ("f", "res"):
+            return super().prim(name, args, kwargs, st, k, src)
+        self.bad(f"call {ast.unparse(src)!r}")
+
+    def binop(self, op, a, b, st, k, src):
+        self.bad(f"arithmetic on the result: {ast.unparse(src)!r}")
+
+    def compare(self, op, a, b, st, kt, kf, src):
+        if op in (ast.Is, ast.IsNot):
+            return super().compare(op, a, b, st, kt, kf, src)
+        self.bad(f"comparison {ast.unparse(src)!r}")
+
+    def truth(self, v, st, kt, kf, src):
+        if v[0] == "f":
+            self.bad(f"truth value of {ast.unparse(src)!r}")
+        return super().truth(v, st, kt, kf, src)
+
+    def eval(self, e: ast.expr, st: St, k):
+        if isinstance(e, ast.Name) and e.id not in st.env and e.id not in self.mod.functions \
+                and e.id not in self.mod.imports and e.id not in self.mod.consts:
+            return k(("opaque",), st)      # a local computed before the pop (the timestamp)
+        if isinstance(e, ast.Subscript):
+            return self.eval(e.value, st, k)     # Sample[QuantityT](...)
+        return super().eval(e, st, k)
+
+
+_CLASSES = {"nan": {"(PyF.isnanC res)": True, "(PyF.isinfC res)": False, "(PyF.isfiniteC res)": False},
+            "inf": {"(PyF.isnanC res)": False, "(PyF.isinfC res)": True, "(PyF.isfiniteC res)": False},
+            "finite": {"(PyF.isnanC res)": False, "(PyF.isinfC res)": False, "(PyF.isfiniteC res)": True}}
+
+
+def _at_class(node, cls: str) -> str:
+    while node[0] != "ret":
+        if node[0] != "if" or node[1] not in _CLASSES[cls]:
+            raise Unsupported(f"final test: unexpected node {node[:2]}")
+        node = node[2] if _CLASSES[cls][node[1]] else node[3]
+    return node[1]
+
+
 def final_test(evaluator_src: str) -> str:
-    """`FormulaEvaluator.apply`: the value popped last from the evaluation stack either becomes the sample's value or
-    is replaced by None.  The decision is recovered by symbolic execution of the statements after the pop (if/else in
-    either polarity, early return, a local holding the value, conditional expression) — names do not matter."""
-    tree = ast.parse(evaluator_src)
-    fn = None
-    for n in ast.walk(_find(tree, ast.ClassDef, "FormulaEvaluator")):
-        if isinstance(n, ast.AsyncFunctionDef) and n.name == "apply":
-            fn = n
-    if fn is None:
+    mod = Module(evaluator_src)
+    m = mod.method("FormulaEvaluator", "apply")
+    if m is None or not isinstance(m[0], ast.AsyncFunctionDef):
         raise Unsupported("FormulaEvaluator.apply not found")
-    body = _strip_doc(fn.body)
-    idx = None
+    body = _strip_doc(m[0].body)
+    # the evaluation stack = what is handed to `<step>.apply(...)`
+    stacks = {ast.unparse(n.args[0]) for n in ast.walk(m[0]) if isinstance(n, ast.Call) and isinstance(n.func, ast.Attribute)
+              and n.func.attr == "apply" and len(n.args) == 1}
+    if len(stacks) != 1:
+        raise Unsupported("FormulaEvaluator.apply: no unique evaluation stack (`step.apply(<stack>)`)")
+    stack = stacks.pop()
+    idx = res = None
     for k, st in enumerate(body):
         if isinstance(st, (ast.Assign, ast.AnnAssign)) and st.value is not None and isinstance(st.value, ast.Call) \
-                and isinstance(st.value.func, ast.Attribute) and st.value.func.attr == "pop" and not st.value.args:
+                and ast.unparse(st.value.func) == f"{stack}.pop" and not st.value.args:
             tgt = st.targets[0] if isinstance(st, ast.Assign) else st.target
             if isinstance(tgt, ast.Name):
                 idx, res = k, tgt.id
     if idx is None:
-        raise Unsupported("FormulaEvaluator.apply: no `<result> = <stack>.pop()`")
+        raise Unsupported("FormulaEvaluator.apply: no `<result> = <stack>.pop()` at the top level")
+    for st in body[idx + 1:]:
+        if any(isinstance(n, ast.Name) and n.id == stack.split(".")[-1] for n in ast.walk(st)):
+            raise Unsupported("FormulaEvaluator.apply: the stack is used after the result was popped")
+    sx = FinalSx(mod, "FormulaEvaluator", "FormulaEvaluator.apply")
 
-    def uses_res(e: ast.expr) -> bool:
-        return any(isinstance(x, ast.Name) and x.id == res for x in ast.walk(e))
+    def ret(v, _st):
+        if v[0] != "sample":
+            sx.bad("returns something that is not a Sample")
+        return ("ret", "true" if v[1][0] == "none" else "false")
 
-    def cond(n: ast.expr) -> str:
-        if isinstance(n, ast.BoolOp):
-            op = " || " if isinstance(n.op, ast.Or) else " && "
-            return "(" + op.join(cond(v) for v in n.values) + ")"
-        if isinstance(n, ast.UnaryOp) and isinstance(n.op, ast.Not):
-            return f"(!{cond(n.operand)})"
-        if isinstance(n, ast.Call) and len(n.args) == 1 and isinstance(n.args[0], ast.Name) and n.args[0].id == res \
-                and not n.keywords:
-            prim = {"isnan": "isnanC", "math.isnan": "isnanC", "isinf": "isinfC", "math.isinf": "isinfC",
-                    "isfinite": "isfiniteC", "math.isfinite": "isfiniteC"}.get(ast.unparse(n.func))
-            if prim:
-                return f"(PyF.{prim} res)"
-        raise Unsupported(f"final test {ast.unparse(n)!r}")
+    def fall(_st):
+        sx.bad("a path without return")
 
-    # symbolic values: "true" (replaced by None), "false" (the value is emitted), or a Lean Bool term
-    def value(e: ast.expr, env: dict[str, str]) -> str:
-        if isinstance(e, ast.Constant) and e.value is None:
-            return "true"
-        if isinstance(e, ast.Name) and e.id in env:
-            return env[e.id]
-        if isinstance(e, ast.IfExp):
-            return f"(if {cond(e.test)} then {value(e.body, env)} else {value(e.orelse, env)})"
-        if isinstance(e, ast.Call) and len(e.args) == 1 and isinstance(e.args[0], ast.Name) and e.args[0].id == res:
-            return "false"   # create_method(res)
-        raise Unsupported(f"FormulaEvaluator.apply: sample value {ast.unparse(e)!r}")
+    tree = sx.exec(body[idx + 1:], St({m[0].args.args[0].arg: ("self",), res: ("f", "res")}), fall, ret)
+    return ("/-- The final test of `FormulaEvaluator.apply`: is the result replaced by `None`? -/\n"
+            f"def Extracted.Formula.resultIsNone (res : FloatClass) : Bool := (if (PyF.isnanC res) then {_at_class(tree, 'nan')} "
+            f"else (if (PyF.isinfC res) then {_at_class(tree, 'inf')} else {_at_class(tree, 'finite')}))\n")
 
-    def run(stmts: list[ast.stmt], env: dict[str, str]) -> str | None:
-        """Bool term for `the returned sample has value None`, or None when the statements fall through."""
-        for k, st in enumerate(stmts):
-            if isinstance(st, ast.Return):
-                v = st.value
-                if not (isinstance(v, ast.Call) and ast.unparse(v.func) == "Sample" and len(v.args) == 2):
-                    raise Unsupported(f"FormulaEvaluator.apply: {ast.unparse(st)!r}")
-                return value(v.args[1], env)
-            if isinstance(st, (ast.Assign, ast.AnnAssign)):
-                tgt = st.targets[0] if isinstance(st, ast.Assign) else st.target
-                if not isinstance(tgt, ast.Name) or st.value is None:
-                    raise Unsupported(f"FormulaEvaluator.apply: {ast.unparse(st)!r}")
-                env = dict(env)
-                env[tgt.id] = value(st.value, env)
-                continue
-            if isinstance(st, ast.If):
-                rest = stmts[k + 1:]
-                c = cond(st.test)
-                a = run(st.body + rest, env)
-                b = run(st.orelse + rest, env)
-                if a is None or b is None:
-                    raise Unsupported("FormulaEvaluator.apply: a path without return")
-                return f"(if {c} then {a} else {b})"
-            raise Unsupported(f"FormulaEvaluator.apply: {ast.unparse(st)!r}")
+
+# ================================================================ Pe: partial evaluation with Unknown
+class _U:
+    def __repr__(self) -> str:
+        return "Unknown"
+
+
+U = _U()
+
+
+class Sym:
+    """An opaque but identifiable value: `TokenType.OPER`, a class, an instance of a class, a call."""
+
+    def __init__(self, kind: str, name: str, args: tuple = ()) -> None:
+        self.kind, self.name, self.args = kind, name, args
+
+    def key(self):
+        return (self.kind, self.name, tuple(a.key() if isinstance(a, Sym) else repr(a) for a in self.args))
+
+    def __eq__(self, o) -> bool:
+        return isinstance(o, Sym) and self.key() == o.key()
+
+    def __hash__(self) -> int:
+        return hash(self.key())
+
+    def __repr__(self) -> str:
+        return f"{self.kind}:{self.name}{list(self.args) if self.args else ''}"
+
+
+class Fn:
+    def __init__(self, node, owner: str | None) -> None:
+        self.node, self.owner = node, owner
+
+
+_CONCRETE = (str, int, float, bool, type(None), tuple, frozenset)
+
+
+def _known(v) -> bool:
+    return isinstance(v, _CONCRETE) or isinstance(v, (dict, Sym, Fn))
+
+
+class Pe:
+    """Outcomes of `run`: list of (kind, value, env, effects) with kind in next | return | break | continue | raise."""
+    MAX_DEPTH = 8
+
+    def __init__(self, mod: Module, cname: str, what: str, classes: set[str], inline_self: bool) -> None:
+        self.mod, self.cname, self.what, self.classes, self.inline_self = mod, cname, what, classes, inline_self
+        self.depth = 0
+
+    def bad(self, msg: str):
+        raise Unsupported(f"{self.what}: {msg}")
+
+    def effect(self, call: ast.Call, func_src: str, args: list):  # overridden: record interesting calls
         return None
 
-    term = run(body[idx + 1:], {})
-    if term is None:
-        raise Unsupported("FormulaEvaluator.apply: no return after the pop")
-    return ("/-- The final test of `FormulaEvaluator.apply`: is the result replaced by `None`? -/\n"
-            f"def Extracted.Formula.resultIsNone (res : FloatClass) : Bool := {term}\n")
+    def opaque(self, src: ast.expr):  # overridden: value of a call / subscript this interpreter knows nothing about
+        return U
+
+    def store_effect(self, tgt: ast.expr):  # overridden: record interesting stores
+        return None
+
+    def stored(self, tgts: list, eff: tuple) -> tuple:
+        for t in tgts:
+            new = self.store_effect(t)
+            if new is not None:
+                eff = eff + (new,)
+        return eff
+
+    # ------------------------------------------------------------ expressions: list of (value, env, effects)
+    def eval(self, e: ast.expr, env: dict, eff: tuple) -> list:
+        if isinstance(e, ast.Constant):
+            return [(e.value, env, eff)]
+        if isinstance(e, ast.Name):
+            if e.id in env:
+                return [(env[e.id], env, eff)]
+            if e.id in self.classes:
+                return [(Sym("class", e.id), env, eff)]
+            if e.id in self.mod.consts and e.id not in self.mod.functions:
+                return [(v, env, eff) for v, _e, _f in self.eval(self.mod.consts[e.id], {}, eff)]
+            if e.id in self.mod.functions:
+                return [(Fn(self.mod.functions[e.id], None), env, eff)]
+            return [(Sym("name", self.mod.imports.get(e.id, e.id)), env, eff)]
+        if isinstance(e, ast.Attribute):
+            if isinstance(e.value, ast.Name) and (env.get(e.value.id) is SELF or e.value.id == self.cname and e.value.id not in env):
+                m = self.mod.method(self.cname, e.attr)
+                if m is not None:
+                    return [(Fn(m[0], self.cname) if self.inline_self else U, env, eff)]
+                c = self.mod.class_const(self.cname, e.attr)
+                if c is not None:
+                    return [(v, env, eff) for v, _e, _f in self.eval(c, {}, eff)]
+                return [(U, env, eff)]
+            d = self.mod.dotted(e)
+            if d is not None and isinstance(e.value, ast.Name) and e.value.id not in env:
+                return [(Sym("name", d), env, eff)]
+            return [(U, e2, f2) for _v, e2, f2 in self.eval(e.value, env, eff)]
+        if isinstance(e, (ast.Tuple, ast.List, ast.Set)):
+            out = []
+            for vs, e2, f2 in self.eval_list(list(e.elts), env, eff):
+                if all(isinstance(v, _CONCRETE) for v in vs):
+                    out.append((frozenset(vs) if isinstance(e, ast.Set) else tuple(vs), e2, f2))
+                else:
+                    out.append((tuple(vs) if all(_known(v) for v in vs) and not isinstance(e, ast.Set) else U, e2, f2))
+            return out
+        if isinstance(e, ast.Dict):
+            if any(k is None for k in e.keys):
+                return [(U, env, eff)]
+            out = []
+            for vs, e2, f2 in self.eval_list(list(e.keys) + list(e.values), env, eff):
+                ks, ws = vs[:len(e.keys)], vs[len(e.keys):]
+                out.append((dict(zip(ks, ws)) if all(isinstance(k, (str, int)) for k in ks) else U, e2, f2))
+            return out
+        if isinstance(e, ast.NamedExpr) and isinstance(e.target, ast.Name):
+            return [(v, {**e2, e.target.id: v}, f2) for v, e2, f2 in self.eval(e.value, env, eff)]
+        if isinstance(e, ast.UnaryOp) and isinstance(e.op, ast.Not):
+            return [(U if (t := self.truth(v)) is U else (not t), e2, f2) for v, e2, f2 in self.eval(e.operand, env, eff)]
+        if isinstance(e, ast.BoolOp):
+            return self.boolop(e, env, eff)
+        if isinstance(e, ast.Compare):
+            return self.compare(e, env, eff)
+        if isinstance(e, ast.IfExp):
+            out = []
+            for t, e2, f2 in self.eval(e.test, env, eff):
+                tv = self.truth(t)
+                if tv is U or tv:
+                    out += self.eval(e.body, e2, f2)
+                if tv is U or not tv:
+                    out += self.eval(e.orelse, e2, f2)
+            return out
+        if isinstance(e, ast.Subscript):
+            out = []
+            for vs, e2, f2 in self.eval_list([e.value, e.slice], env, eff):
+                c, i = vs
+                if isinstance(c, dict) and isinstance(i, (str, int)):
+                    out.append((c[i], e2, f2) if i in c else ("__raise__", "KeyError", e2, f2))
+                else:
+                    out.append((self.opaque(e), e2, f2))
+            return self.split_raises(out)
+        if isinstance(e, ast.Call):
+            return self.call(e, env, eff)
+        if isinstance(e, ast.Lambda):
+            return [(Fn(e, None), env, eff)]
+        if isinstance(e, ast.Await):
+            return [(U, e2, f2) for _v, e2, f2 in self.eval(e.value, env, eff)]
+        if isinstance(e, (ast.JoinedStr, ast.BinOp, ast.UnaryOp, ast.ListComp, ast.GeneratorExp, ast.SetComp, ast.DictComp, ast.Starred)):
+            return [(U, env, eff)]
+        self.bad(f"expression {ast.unparse(e)!r}")
+
+    class Raised(Exception):
+        def __init__(self, outcomes):
+            self.outcomes = outcomes
+
+    def split_raises(self, out: list) -> list:
+        """Expression-level raises are turned into statement-level outcomes by `run` (via the exception)."""
+        bad = [o for o in out if o[0] == "__raise__"]
+        if bad:
+            raise Pe.Raised((bad, [o for o in out if o[0] != "__raise__"]))
+        return out
+
+    def eval_list(self, es: list[ast.expr], env: dict, eff: tuple) -> list:
+        outs = [((), env, eff)]
+        for x in es:
+            nxt = []
+            for vs, e2, f2 in outs:
+                for v, e3, f3 in self.eval(x, e2, f2):
+                    nxt.append((vs + (v,), e3, f3))
+            outs = nxt
+        return [(list(vs), e2, f2) for vs, e2, f2 in outs]
+
+    @staticmethod
+    def truth(v):
+        if v is U:
+            return U
+        if isinstance(v, (Sym, Fn)):
+            return True if not isinstance(v, Sym) or v.kind in ("class", "inst") else U
+        if isinstance(v, dict):
+            return bool(v)
+        return bool(v)
+
+    def boolop(self, e: ast.BoolOp, env: dict, eff: tuple) -> list:
+        """Three-valued short-circuit evaluation.  The exact value is returned while every operand so far had a known
+        truth value; after an operand of unknown truth only the truth value of the whole is tracked."""
+        is_and = isinstance(e.op, ast.And)
+        outs = []
+
+        def go(i: int, env: dict, eff: tuple, unk: bool) -> None:
+            for v, e2, f2 in self.eval(e.values[i], env, eff):
+                t = self.truth(v)
+                if t is not U and t != is_and:      # a false operand of `and` / a true one of `or` decides the whole
+                    outs.append((v if not unk else (not is_and), e2, f2))
+                elif i == len(e.values) - 1:
+                    outs.append((U if (unk or t is U) else v, e2, f2))
+                else:
+                    go(i + 1, e2, f2, unk or t is U)
+
+        go(0, env, eff, False)
+        return outs
+
+    def compare(self, e: ast.Compare, env: dict, eff: tuple) -> list:
+        if len(e.ops) != 1:
+            return [(U, env, eff)]
+        out = []
+        for vs, e2, f2 in self.eval_list([e.left, e.comparators[0]], env, eff):
+            a, b = vs
+            op = e.ops[0]
+            r = U
+            if isinstance(op, (ast.Is, ast.IsNot)):
+                if a is not U and b is not U and (a is None or b is None):
+                    r = (a is None and b is None) == isinstance(op, ast.Is)
+            elif a is U or b is U or isinstance(a, Fn) or isinstance(b, Fn):
+                r = U
+            elif isinstance(op, (ast.Eq, ast.NotEq)):
+                if isinstance(a, Sym) and a.kind in ("call",) or isinstance(b, Sym) and b.kind in ("call",):
+                    r = U
+                else:
+                    r = (a == b) == isinstance(op, ast.Eq)
+            elif isinstance(op, (ast.In, ast.NotIn)):
+                if isinstance(b, (tuple, frozenset, str, dict)) and isinstance(a, _CONCRETE) and \
+                        not (isinstance(b, str) and not isinstance(a, str)):
+                    r = (a in b) == isinstance(op, ast.In)
+            out.append((r, e2, f2))
+        return out
+
+    # ------------------------------------------------------------ calls
+    def call(self, e: ast.Call, env: dict, eff: tuple) -> list:
+        if any(kw.arg is None for kw in e.keywords) or any(isinstance(a, ast.Starred) for a in e.args):
+            return [(U, env, eff)]
+        out = []
+        f = e.func
+        recv_outs = [(None, env, eff)]
+        if isinstance(f, ast.Attribute) and not (isinstance(f.value, ast.Name) and f.value.id not in env):
+            recv_outs = self.eval(f.value, env, eff)
+        elif isinstance(f, ast.Attribute) and isinstance(f.value, ast.Name) and f.value.id in self.mod.consts:
+            recv_outs = self.eval(f.value, env, eff)
+        for recv, e1, f1 in recv_outs:
+            if isinstance(f, ast.Attribute) and recv is SELF:
+                fouts = self.eval(f, e1, f1)
+            elif isinstance(f, ast.Attribute) and recv is not None:
+                fouts = [(("method", recv, f.attr), e1, f1)]
+            else:
+                fouts = self.eval(f, e1, f1)
+            for fv, e2, f2 in fouts:
+                for vs, e3, f3 in self.eval_list(list(e.args) + [kw.value for kw in e.keywords], e2, f2):
+                    args, kwargs = vs[:len(e.args)], dict(zip([kw.arg for kw in e.keywords], vs[len(e.args):]))
+                    out += self.apply(fv, args, kwargs, e3, f3, e)
+        return self.split_raises(out)
+
+    def apply(self, fv, args: list, kwargs: dict, env: dict, eff: tuple, src: ast.Call) -> list:
+        if isinstance(fv, tuple) and fv and fv[0] == "method":
+            _, recv, attr = fv
+            if isinstance(recv, dict):
+                if attr == "get" and not kwargs and 1 <= len(args) <= 2 and isinstance(args[0], (str, int)):
+                    return [(recv.get(args[0], args[1] if len(args) == 2 else None), env, eff)]
+                return [(U, env, eff)]
+            if isinstance(recv, str) and not kwargs and all(isinstance(a, _CONCRETE) for a in args) and \
+                    attr in ("isspace", "isdigit", "isalpha", "isalnum", "isdecimal", "isnumeric", "strip", "lower", "upper"):
+                return [(getattr(recv, attr)(*args), env, eff)]
+            new = self.effect(src, ast.unparse(src.func), args)
+            return [(self.opaque(src), env, eff + ((new,) if new is not None else ()))]
+        if isinstance(fv, Sym) and fv.kind == "class" and not args and not kwargs:
+            return [(Sym("inst", fv.name), env, eff)]
+        if isinstance(fv, Sym) and fv.kind == "name" and fv.name == "repr":
+            return [(U, env, eff)]
+        if isinstance(fv, Sym) and fv.kind in ("name", "class"):
+            if all(_known(a) for a in args) and not kwargs:
+                return [(Sym("call", fv.name, tuple(a if not isinstance(a, (dict, Fn)) else U for a in args)), env, eff)]
+            return [(Sym("call", fv.name, tuple(a if isinstance(a, (Sym,) + _CONCRETE) else U for a in args)), env, eff)]
+        if isinstance(fv, Fn):
+            fn = fv.node
+            if self.depth >= self.MAX_DEPTH:
+                self.bad("helper calls nested too deeply (recursion?)")
+            what = f"{self.what}: helper {getattr(fn, 'name', '<lambda>')}"
+            if isinstance(fn, ast.Lambda):
+                penv = _bind_params(fn, args, kwargs, what)
+                penv = {k: (self.eval(v[1], {}, ())[0][0] if isinstance(v, tuple) and v and v[0] == "default" else v) for k, v in penv.items()}
+                return [(v, env, f2) for v, _e, f2 in self.eval(fn.body, penv, eff)]
+            if fv.owner is not None and not _is_static(fn):
+                args = [SELF] + args
+            penv = _bind_params(fn, args, kwargs, what)
+            penv = {k: (self.eval(v[1], {}, ())[0][0] if isinstance(v, tuple) and v and v[0] == "default" else v) for k, v in penv.items()}
+            self.depth += 1
+            try:
+                outs = self.run(_strip_doc(fn.body), penv, eff)
+            finally:
+                self.depth -= 1
+            res = []
+            for kind, v, _e, f2 in outs:
+                if kind in ("next", "return"):
+                    res.append((v if kind == "return" else None, env, f2))
+                elif kind == "raise":
+                    res.append(("__raise__", v, env, f2))
+                else:
+                    self.bad("break/continue outside a loop")
+            return res
+        return [(U, env, eff)]
+
+    # ------------------------------------------------------------ statements
+    def run(self, stmts: list[ast.stmt], env: dict, eff: tuple) -> list:
+        if not stmts:
+            return [("next", None, env, eff)]
+        s, rest = stmts[0], stmts[1:]
+        try:
+            outs = self.step(s, env, eff)
+        except Pe.Raised as r:
+            bad, _good = r.outcomes
+            # an expression of this statement raises on some path: those paths end here (the others are re-run is
+            # not possible without re-evaluating, so a statement that both raises and continues is refused)
+            if _good:
+                self.bad(f"{ast.unparse(s)[:60]!r} raises on some paths only")
+            return [("raise", b[1], b[2], b[3]) for b in bad]
+        res = []
+        for kind, v, e2, f2 in outs:
+            if kind == "next":
+                res += self.run(rest, e2, f2)
+            else:
+                res.append((kind, v, e2, f2))
+        return res
+
+    @staticmethod
+    def assigned_names(stmts: list[ast.stmt]) -> set[str]:
+        out = set()
+        for s in stmts:
+            for n in ast.walk(s):
+                if isinstance(n, ast.Name) and isinstance(n.ctx, ast.Store):
+                    out.add(n.id)
+        return out
+
+    def bind(self, tgt: ast.expr, v, env: dict) -> dict:
+        if isinstance(tgt, ast.Name):
+            return {**env, tgt.id: v}
+        if isinstance(tgt, (ast.Tuple, ast.List)):
+            if isinstance(v, tuple) and len(v) == len(tgt.elts):
+                for t, w in zip(tgt.elts, v):
+                    env = self.bind(t, w, env)
+                return env
+            for t in tgt.elts:
+                env = self.bind(t, U, env)
+            return env
+        return env      # attribute / subscript stores: not tracked (reads of self attributes are Unknown anyway)
+
+    def step(self, s: ast.stmt, env: dict, eff: tuple) -> list:
+        if isinstance(s, (ast.Pass, ast.Global, ast.Nonlocal)):
+            return [("next", None, env, eff)]
+        if isinstance(s, ast.Expr):
+            return [("next", None, e2, f2) for _v, e2, f2 in self.eval(s.value, env, eff)]
+        if isinstance(s, ast.Assign):
+            out = []
+            for v, e2, f2 in self.eval(s.value, env, eff):
+                for t in s.targets:
+                    e2 = self.bind(t, v, e2)
+                out.append(("next", None, e2, self.stored(s.targets, f2)))
+            return out
+        if isinstance(s, ast.AnnAssign):
+            if s.value is None:
+                return [("next", None, env, eff)]
+            return [("next", None, self.bind(s.target, v, e2), self.stored([s.target], f2))
+                    for v, e2, f2 in self.eval(s.value, env, eff)]
+        if isinstance(s, ast.AugAssign):
+            return [("next", None, self.bind(s.target, U, e2), self.stored([s.target], f2))
+                    for _v, e2, f2 in self.eval(s.value, env, eff)]
+        if isinstance(s, ast.Assert):
+            return [("next", None, env, eff)]
+        if isinstance(s, ast.Return):
+            if s.value is None:
+                return [("return", None, env, eff)]
+            return [("return", v, e2, f2) for v, e2, f2 in self.eval(s.value, env, eff)]
+        if isinstance(s, ast.Raise):
+            name = "?"
+            if s.exc is not None:
+                c = s.exc.func if isinstance(s.exc, ast.Call) else s.exc
+                name = ast.unparse(c)
+            return [("raise", name, env, eff)]
+        if isinstance(s, ast.Break):
+            return [("break", None, env, eff)]
+        if isinstance(s, ast.Continue):
+            return [("continue", None, env, eff)]
+        if isinstance(s, ast.If):
+            out = []
+            for t, e2, f2 in self.eval(s.test, env, eff):
+                tv = self.truth(t)
+                if tv is U or tv:
+                    out += self.run(s.body, e2, f2)
+                if tv is U or not tv:
+                    out += self.run(s.orelse, e2, f2)
+            return out
+        if isinstance(s, ast.Match):
+            return self.match(s, env, eff)
+        if isinstance(s, (ast.While, ast.For, ast.AsyncFor)):
+            # zero iterations, or one iteration with everything the loop assigns unknown (enough to see what a loop
+            # body can push / return; nothing here depends on how often it runs)
+            havoc = {n: U for n in self.assigned_names([s])}
+            out = []
+            if isinstance(s, ast.While):
+                tests = self.eval(s.test, env, eff)
+            else:
+                tests = [(U, e2, f2) for _v, e2, f2 in self.eval(s.iter, env, eff)]
+            for t, e2, f2 in tests:
+                tv = self.truth(t)
+                if tv is U or not tv:
+                    out += self.run(s.orelse, e2, f2)
+                if tv is U or tv:
+                    for kind, v, e3, f3 in self.run(s.body, {**e2, **havoc}, f2):
+                        if kind in ("next", "continue", "break"):
+                            out.append(("next", None, {**e3, **havoc}, f3))
+                        else:
+                            out.append((kind, v, e3, f3))
+            return out
+        self.bad(f"statement {ast.unparse(s)[:60]!r}")
+
+    def match(self, s: ast.Match, env: dict, eff: tuple) -> list:
+        out = []
+        for subj, e2, f2 in self.eval(s.subject, env, eff):
+            pending = [(e2, f2)]
+            for case in s.cases:
+                nxt = []
+                for e3, f3 in pending:
+                    m, e4 = self.pattern(case.pattern, subj, e3)
+                    if m is False:
+                        nxt.append((e3, f3))
+                        continue
+                    guards = [(True, e4, f3)] if case.guard is None else \
+                        [(self.truth(g), e5, f5) for g, e5, f5 in self.eval(case.guard, e4, f3)]
+                    for g, e5, f5 in guards:
+                        if m is U or g is U:
+                            out += self.run(case.body, e5, f5)
+                            nxt.append((e3, f5))
+                        elif g:
+                            out += self.run(case.body, e5, f5)
+                        else:
+                            nxt.append((e3, f5))
+                pending = nxt
+            out += [("next", None, e3, f3) for e3, f3 in pending]
+        return out
+
+    def pattern(self, p: ast.pattern, subj, env: dict):
+        """(True | False | U, env with captures)"""
+        if isinstance(p, ast.MatchAs):
+            if p.pattern is None:
+                return True, ({**env, p.name: subj} if p.name else env)
+            m, e2 = self.pattern(p.pattern, subj, env)
+            return m, ({**e2, p.name: subj} if p.name else e2)
+        if isinstance(p, ast.MatchOr):
+            res = False
+            for q in p.patterns:
+                m, _ = self.pattern(q, subj, env)
+                if m is True:
+                    return True, env
+                if m is U:
+                    res = U
+            return res, env
+        if isinstance(p, (ast.MatchValue, ast.MatchSingleton)):
+            v = p.value if isinstance(p, ast.MatchSingleton) else self.eval(p.value, {}, ())[0][0]
+            if subj is U or v is U or isinstance(subj, Sym) and subj.kind == "call":
+                return U, env
+            return subj == v, env
+        return U, env
+
+
+SELF = Sym("self", "self")
+
+
+# ---------------------------------------------------------------- precedence table, repr, push_oper
+def precedence(engine: Module) -> dict[str, int]:
+    """The module-level dict literal over exactly the ten operator strings that `FormulaBuilder` indexes."""
+    found = []
+    for name, v in engine.consts.items():
+        if isinstance(v, ast.Dict) and v.keys and all(isinstance(k, ast.Constant) and isinstance(k.value, str) for k in v.keys) \
+                and {k.value for k in v.keys} == set(OPS) and len(v.keys) == len(OPS) \
+                and all(isinstance(x, ast.Constant) for x in v.values):
+            found.append((name, v))
+    if len(found) != 1:
+        raise Unsupported(f"operator precedence table: {len(found)} dict literals over the ten operator strings")
+    name, v = found[0]
+    builder = engine.cls("FormulaBuilder")
+    if not any(isinstance(n, ast.Subscript) and isinstance(n.value, ast.Name) and n.value.id == name for n in ast.walk(builder)):
+        raise Unsupported(f"{name} is not indexed by FormulaBuilder")
+    tab = {}
+    for k, x in zip(v.keys, v.values):
+        if not (isinstance(x.value, int) and not isinstance(x.value, bool) and x.value >= 0):
+            raise Unsupported(f"non-literal / negative value in {name}")
+        tab[k.value] = x.value
+    return tab
+
+
+def check_reprs(steps: Module) -> None:
+    for s, cname in STEP_CLASS.items():
+        steps.cls(cname)
+        m = steps.method(cname, "__repr__")
+        if m is None:
+            raise Unsupported(f"{cname}.__repr__ not found")
+        pe = Pe(steps, cname, f"{cname}.__repr__", set(), inline_self=True)
+        outs = pe.run(_strip_doc(m[0].body), {m[0].args.args[0].arg: SELF}, ())
+        if not outs or any(kind != "return" or v != s for kind, v, _e, _f in outs):
+            raise Unsupported(f"{cname}.__repr__ does not return {s!r}")
+
+
+class PushPe(Pe):
+    """Records what is put on `self._build_stack`.  A step that was taken from the build stack itself (`.pop()`,
+    `[-1]`) and is put back is not a dispatch: that is the pop loop, tied by the correspondence check."""
+    OLD = Sym("old", "a step taken from the build stack")
+
+    def opaque(self, src: ast.expr):
+        txt = ast.unparse(src)
+        if txt.endswith("._build_stack.pop()") or txt.endswith("._build_stack[-1]"):
+            return self.OLD
+        return U
+
+    def store_effect(self, tgt: ast.expr):
+        return ("store", ast.unparse(tgt)) if "_build_stack" in ast.unparse(tgt) else None
+
+    def effect(self, call: ast.Call, func_src: str, args: list):
+        if func_src.endswith("._build_stack.append") and len(args) == 1 and args[0] == self.OLD:
+            return None
+        if func_src.endswith("._build_stack.append") or func_src.endswith("._build_stack.insert") \
+                or func_src.endswith("._build_stack.extend") or func_src.endswith("._build_stack.__setitem__"):
+            return ("push", func_src.rsplit(".", 1)[1], tuple(args))
+        return None
+
+
+def check_push_oper(engine: Module) -> None:
+    """Run `push_oper` once per operator string (the operator is concrete, everything else unknown): on every path,
+    exactly the step class whose `repr` is that string is appended to `self._build_stack` (")": nothing)."""
+    m = engine.method("FormulaBuilder", "push_oper")
+    if m is None or isinstance(m[0], ast.AsyncFunctionDef):
+        raise Unsupported("FormulaBuilder.push_oper not found")
+    fn = m[0]
+    for s in ORDER:
+        pe = PushPe(engine, "FormulaBuilder", f"push_oper({s!r})", set(STEP_CLASS.values()), inline_self=True)
+        env = _bind_params(fn, [SELF, s], {}, "push_oper")
+        outs = pe.run(_strip_doc(fn.body), env, ())
+        want = (("push", "append", (Sym("inst", STEP_CLASS[s]),)),) if s in STEP_CLASS else ()
+        if not outs:
+            raise Unsupported(f"push_oper({s!r}): no path")
+        for kind, _v, _e, eff in outs:
+            if kind not in ("next", "return"):
+                raise Unsupported(f"push_oper({s!r}): a path ends with {kind} {_v}")
+            if eff != want:
+                raise Unsupported(f"push_oper({s!r}): pushes {list(eff)} on some path, expected {list(want)}")
+
+
+# ---------------------------------------------------------------- tokenizer character classes
+def tokenizer_chars(tok: Module) -> tuple[list[str], list[str], str]:
+    """The character classes of `Tokenizer.__next__`, by what its character loop does with each character."""
+    m = tok.method("Tokenizer", "__next__")
+    if m is None:
+        raise Unsupported("Tokenizer.__next__ not found")
+    fn = m[0]
+    loops = [n for n in _strip_doc(fn.body) if isinstance(n, (ast.For, ast.While))]
+    if len(loops) != 1 or not isinstance(loops[0], ast.For) or not isinstance(loops[0].target, ast.Name) or loops[0].orelse:
+        raise Unsupported("Tokenizer.__next__: no unique `for <char> in <formula>` loop")
+    loop = loops[0]
+    var = loop.target.id
+    for n in ast.walk(loop):
+        if isinstance(n, ast.Name) and n.id == var and isinstance(n.ctx, ast.Store) and n is not loop.target:
+            raise Unsupported("Tokenizer.__next__: the loop variable is reassigned")
+    # every test on the character must be a comparison with literals: then all characters that are not mentioned
+    # behave like one fresh character
+    lits: set[str] = set()
+    body_mod = ast.Module(body=loop.body, type_ignores=[])
+    in_fstring = {id(c) for n in ast.walk(body_mod) if isinstance(n, ast.JoinedStr) for c in ast.walk(n)}
+    for n in ast.walk(body_mod):
+        if isinstance(n, ast.Constant) and isinstance(n.value, str) and id(n) not in in_fstring:
+            lits.update(n.value)
+        if isinstance(n, ast.Name) and n.id in tok.consts:
+            for c in ast.walk(tok.consts[n.id]):
+                if isinstance(c, ast.Constant) and isinstance(c.value, str):
+                    lits.update(c.value)
+        if isinstance(n, ast.Attribute) and isinstance(n.value, ast.Name) and n.value.id == var:
+            raise Unsupported(f"Tokenizer.__next__: test `{ast.unparse(n)}` on the character is not a comparison with literals")
+        if isinstance(n, ast.Attribute) and isinstance(n.value, ast.Name) and n.value.id == fn.args.args[0].arg \
+                and tok.class_const("Tokenizer", n.attr) is not None:
+            for c in ast.walk(tok.class_const("Tokenizer", n.attr)):
+                if isinstance(c, ast.Constant) and isinstance(c.value, str):
+                    lits.update(c.value)
+    fresh = next(chr(x) for x in range(0xE000, 0xF8FF) if chr(x) not in lits)
+    classes: dict[str, list[str]] = {"ws": [], "oper": [], "metric": [], "error": []}
+    pe = Pe(tok, "Tokenizer", "Tokenizer.__next__", {"Token"}, inline_self=False)
+    self_name = fn.args.args[0].arg
+    for c in sorted(lits | {fresh}):
+        outs = pe.run(loop.body, {self_name: SELF, var: c}, ())
+        roles = set()
+        for kind, v, _e, _f in outs:
+            if kind in ("next", "continue"):
+                roles.add("ws")
+            elif kind == "raise" and v == "ValueError":
+                roles.add("error")
+            elif kind == "return" and isinstance(v, Sym) and v.kind == "call" and v.name == "Token" and len(v.args) == 2 \
+                    and v.args[0] == Sym("name", "TokenType.OPER") and v.args[1] == c:
+                roles.add("oper")
+            elif kind == "return" and isinstance(v, Sym) and v.kind == "call" and v.name == "Token" and len(v.args) == 2 \
+                    and v.args[0] == Sym("name", "TokenType.COMPONENT_METRIC") and v.args[1] is U:
+                roles.add("metric")
+            else:
+                raise Unsupported(f"Tokenizer.__next__: character {c!r}: unknown outcome {kind} {v}")
+        if len(roles) != 1:
+            raise Unsupported(f"Tokenizer.__next__: character {c!r}: outcomes {sorted(roles)}")
+        classes[roles.pop()].append(c)
+    if fresh not in classes["error"]:
+        raise Unsupported("Tokenizer.__next__: an unmentioned character is not rejected with ValueError")
+    ws, ops, metric = classes["ws"], classes["oper"], classes["metric"]
+    if len(metric) != 1 or not ws:
+        raise Unsupported(f"Tokenizer.__next__: character classes found: ws={ws} oper={ops} metric={metric}")
+    if set(ops) != {"+", "-", "*", "/", "(", ")"}:
+        raise Unsupported(f"Tokenizer operator characters changed: {ops}")
+    return sorted(ws, key=ord), sorted(ops, key="+-*/()".index), metric[0]
 
 
 def _lean_char(c: str) -> str:
@@ -464,16 +1316,14 @@ def _lean_char(c: str) -> str:
 
 
 def generate(repo: pathlib.Path) -> str:
-    engine_src = (repo / SOURCES[0]).read_text()
-    steps_src = (repo / SOURCES[1]).read_text()
-    tok_src = (repo / SOURCES[2]).read_text()
-    engine_tree = ast.parse(engine_src)
-    steps_tree = ast.parse(steps_src)
+    engine = Module((repo / SOURCES[0]).read_text())
+    steps = Module((repo / SOURCES[1]).read_text())
+    tok = Module((repo / SOURCES[2]).read_text())
 
-    tab = precedence(engine_src)
-    check_reprs(steps_tree)
-    check_push_oper(engine_tree)
-    ws, ops, hash_ = tokenizer_chars(tok_src)
+    tab = precedence(engine)
+    check_reprs(steps)
+    check_push_oper(engine)
+    ws, ops, hash_ = tokenizer_chars(tok)
 
     out = ["import Frequenz.Model.FormulaSteps", "", "open Formula", ""]
     out.append("/-- `_operator_precedence` (indexed by `repr` of the step on the build stack). -/")
@@ -487,8 +1337,8 @@ def generate(repo: pathlib.Path) -> str:
     out.append(f"def Extracted.Formula.metricChar : Char := {_lean_char(hash_)}")
     out.append("")
     for c in BINARY:
-        out.append(translate_step(steps_tree, c, 2))
+        out.append(translate_step(steps, c, 2))
     for c in UNARY:
-        out.append(translate_step(steps_tree, c, 1))
+        out.append(translate_step(steps, c, 1))
     out.append(final_test((repo / SOURCES[3]).read_text()))
     return "\n".join(out)
